@@ -209,3 +209,31 @@ def body_section_widths(ctx: Ctx, rule: str) -> None:
     t = unparse(fi.node)
     if "col_widths=col_widths" not in t:
         ctx.violation(rule, fi.short, "widths not passed", fi.where(), "the computed column widths are not handed to pagination/rendering")
+
+
+def broadcast_expansion(ctx: Ctx, rule: str) -> None:
+    """BroadcastValue.to_list tiles the stored block up to the requested shape: repeats must be the
+    ceiling of dimension / block size, and the result is cut to exactly the requested shape"""
+    pm = ctx.pm
+    fi = pm.func("BroadcastValue.to_list")
+    env = {unparse(a.targets[0]): a.value for a in walk_no_nested(fi.node) if isinstance(a, ast.Assign) and len(a.targets) == 1}
+    counts = unparse(env.get("(row_count, col_count)", env.get("row_count, col_count"))) if ("(row_count, col_count)" in env or "row_count, col_count" in env) else "?"
+    for name, dim_i, cnt in (("row_repeats", 0, "row_count"), ("col_repeats", 1, "col_count")):
+        v = env.get(name)
+        ok = False
+        desc = unparse(v) if v is not None else "?"
+        if isinstance(v, ast.Call) and dotted(v.func) == "max" and len(v.args) == 2 and unparse(v.args[0]) == "1":
+            q = v.args[1]
+            if isinstance(q, ast.BinOp) and isinstance(q.op, ast.FloorDiv) and unparse(q.right) == cnt:
+                ok = linform(q.left) == {f"self.dimension[{dim_i}]": 1, cnt: 1, "": -1}
+        ctx.instance(rule, fi.where(v) if v is not None else fi.where(), f"BroadcastValue.to_list {name} = {desc} (ceiling division: {ok})")
+        if not ok:
+            ctx.violation(rule, fi.short, f"{name} = {desc}", fi.where(),
+                          f"BroadcastValue.to_list computes {name} as `{desc}`, not ceil(dimension/block) = (dimension + block - 1) // block: a block that does not divide the "
+                          "table is tiled too short and a later per-page border update indexes past the end (IndexError during rtf_encode)")
+    t = unparse(fi.node)
+    ok = "[row[:self.dimension[1]] for row in value[:self.dimension[0]]]" in t and "value = [column * col_repeats for column in self.value] * row_repeats" in t \
+        and "(len(self.value), len(self.value[0]))" in t
+    ctx.instance(rule, fi.where(), f"to_list tiles columns then rows and cuts to exactly the requested shape: {ok}")
+    if not ok:
+        ctx.violation(rule, fi.short, "tiling/cut", fi.where(), "BroadcastValue.to_list no longer tiles the block (columns, then rows) and cuts the result to exactly dimension[0] x dimension[1]")
